@@ -157,7 +157,7 @@ def run(rep, tier, rng):
     rep.rule = ("every concrete class: %d valid instance(s) -> to_etree; %d insertions each at a random aggregate node and position, kinds %s, tags unknown to the receiving class "
                 "(incl. tags known elsewhere); compared: conversion of clean vs contaminated document at tree level and through XML / SGML bytes (implementation), and "
                 "Model.Convert.from_etree vs Aggregate.from_etree on every contaminated tree. distinct by (class, kind, path, position, tag, form)" % (per_class, n_ins, KINDS))
-    bad = C.coq_bad_indices(PROP, "insert", IMPORTS, "ccase_ok S", "ccase", items, shard=60, prelude="Local Open Scope string_scope.")
+    bad = C.coq_bad_indices(PROP, "insert", IMPORTS, "ccase_ok S", "ccase", items, shard=150, prelude="Local Open Scope string_scope.")
     for i in bad[:30]:
         rep.disagreements.append(dict(meta[i], case=items[i][:1200]))
 
